@@ -362,6 +362,190 @@ func TestVerifOracleList(t *testing.T) {
 }
 `
 
+
+const oracleBufTest = `package shmipc
+
+import (
+	"bytes"
+	"fmt"
+	"math/rand"
+	"testing"
+)
+
+// byte-pipe reference: every byte written comes out once, in order, whatever mix of calls and sizes is used;
+// Len is written minus consumed; Peek consumes nothing; ReadBytes/Peek results stay intact until released.
+func TestVerifOracleBuf(t *testing.T) {
+	defer func() {
+		if r := recover(); r != nil {
+			fmt.Printf("REPLAY-VIOLATED: panic: %v\n", r)
+		}
+	}()
+	for seed := int64(1); seed <= 60; seed++ {
+		rnd := rand.New(rand.NewSource(seed))
+		mem := make([]byte, 1<<16)
+		bm, err := createBufferManager([]*SizePercentPair{{Size: 16, Percent: 30}, {Size: 64, Percent: 30}, {Size: 256, Percent: 40}}, "", mem, 0)
+		if err != nil {
+			fmt.Printf("REPLAY-VIOLATED: createBufferManager: %v\n", err)
+			return
+		}
+		l := newEmptyLinkedBuffer(bm)
+		var ref []byte
+		var trace []string
+		next := byte(1)
+		fill := func(b []byte) {
+			for i := range b {
+				b[i] = next
+				next++
+				if next == 0 {
+					next = 1
+				}
+			}
+		}
+		for k := 0; k < 4+rnd.Intn(5); k++ {
+			n := 1 + rnd.Intn(300)
+			switch rnd.Intn(3) {
+			case 0:
+				d := make([]byte, n)
+				fill(d)
+				w, err := l.WriteBytes(d)
+				trace = append(trace, fmt.Sprintf("WriteBytes(%d)", n))
+				if err != nil || w != n {
+					fmt.Printf("REPLAY-VIOLATED: seed %d %v: WriteBytes returned (%d, %v)\n", seed, trace, w, err)
+					return
+				}
+				ref = append(ref, d...)
+			case 1:
+				if n > 256 {
+					n = 256
+				}
+				r, err := l.Reserve(n)
+				trace = append(trace, fmt.Sprintf("Reserve(%d)", n))
+				if err != nil || len(r) != n {
+					fmt.Printf("REPLAY-VIOLATED: seed %d %v: Reserve returned len %d err %v\n", seed, trace, len(r), err)
+					return
+				}
+				fill(r)
+				ref = append(ref, r...)
+			case 2:
+				b := next
+				next++
+				if next == 0 {
+					next = 1
+				}
+				l.WriteByte(b)
+				trace = append(trace, "WriteByte")
+				ref = append(ref, b)
+			}
+			if l.Len() != len(ref) {
+				fmt.Printf("REPLAY-VIOLATED: seed %d %v: Len() == %d after writing %d bytes\n", seed, trace, l.Len(), len(ref))
+				return
+			}
+		}
+		type pinned struct {
+			got  []byte
+			want []byte
+		}
+		var pins []pinned
+		for len(ref) > 0 {
+			n := 1 + rnd.Intn(len(ref))
+			if n > 200 {
+				n = 1 + rnd.Intn(200)
+			}
+			op := rnd.Intn(6)
+			var got []byte
+			var err error
+			consumed := n
+			switch op {
+			case 0:
+				got, err = l.ReadBytes(n)
+				trace = append(trace, fmt.Sprintf("ReadBytes(%d)", n))
+				pins = append(pins, pinned{got, append([]byte{}, ref[:n]...)})
+			case 1:
+				got, err = l.Peek(n)
+				trace = append(trace, fmt.Sprintf("Peek(%d)", n))
+				consumed = 0
+				pins = append(pins, pinned{got, append([]byte{}, ref[:n]...)})
+			case 2:
+				var d int
+				d, err = l.Discard(n)
+				trace = append(trace, fmt.Sprintf("Discard(%d)", n))
+				if d != n {
+					fmt.Printf("REPLAY-VIOLATED: seed %d %v: Discard returned %d\n", seed, trace, d)
+					return
+				}
+				got = ref[:n]
+			case 3:
+				var b byte
+				b, err = l.ReadByte()
+				trace = append(trace, "ReadByte")
+				got, n, consumed = []byte{b}, 1, 1
+			case 4:
+				var str string
+				str, err = l.ReadString(n)
+				trace = append(trace, fmt.Sprintf("ReadString(%d)", n))
+				got = []byte(str)
+			case 5:
+				p := make([]byte, n)
+				var m int
+				m, err = l.read(p)
+				trace = append(trace, fmt.Sprintf("read(%d)", n))
+				if m <= 0 || m > n {
+					fmt.Printf("REPLAY-VIOLATED: seed %d %v: read returned %d\n", seed, trace, m)
+					return
+				}
+				got, n, consumed = p[:m], m, m
+			}
+			if err != nil || !bytes.Equal(got, ref[:n]) {
+				fmt.Printf("REPLAY-VIOLATED: seed %d %v: got %d bytes %v (err %v), the next %d bytes written were %v\n", seed, trace, len(got), head8(got), err, n, head8(ref[:n]))
+				return
+			}
+			ref = ref[consumed:]
+			if l.Len() != len(ref) {
+				fmt.Printf("REPLAY-VIOLATED: seed %d %v: Len() == %d, %d bytes are unread\n", seed, trace, l.Len(), len(ref))
+				return
+			}
+			// unrelated allocations: take every free buffer, overwrite its payload, give it back - a slice that was
+			// recycled while a zero-copy result still points into it shows up as changed contents
+			for _, fl := range bm.lists {
+				var tmp []*bufferSlice
+				for {
+					b, err := fl.pop()
+					if err != nil {
+						break
+					}
+					for i := range b.data {
+						b.data[i] = 0xEE
+					}
+					tmp = append(tmp, b)
+				}
+				for _, b := range tmp {
+					fl.push(b)
+				}
+			}
+			for _, pn := range pins {
+				if !bytes.Equal(pn.got, pn.want) {
+					fmt.Printf("REPLAY-VIOLATED: seed %d %v: a slice returned by an earlier ReadBytes changed before ReleasePreviousRead\n", seed, trace)
+					return
+				}
+			}
+			if rnd.Intn(4) == 0 {
+				l.ReleasePreviousRead()
+				trace = append(trace, "ReleasePreviousRead")
+				pins = nil
+			}
+		}
+	}
+	fmt.Println("REPLAY-NO-VIOLATION")
+}
+
+func head8(b []byte) []byte {
+	if len(b) > 8 {
+		return b[:8]
+	}
+	return b
+}
+`
+
 // oracleReplay runs the executable reference for the function of a failed obligation (if there is one).
 func oracleReplay(e *Engine, o *Obligation, dir string) (bool, string) {
 	key := o.Func
@@ -378,6 +562,11 @@ func oracleReplay(e *Engine, o *Obligation, dir string) (bool, string) {
 		"(bufferHeader).hasNext", "(bufferHeader).nextBufferOffset", "(bufferHeader).clearFlag", "(bufferHeader).setInUsed", "(bufferHeader).linkNext",
 		"(*bufferManager).recycleBuffer", "(*bufferManager).allocShmBuffer", "createBufferManager":
 		which = "list"
+	case "(*linkedBuffer).ReadBytes", "(*linkedBuffer).Peek", "(*linkedBuffer).Discard", "(*linkedBuffer).ReadByte", "(*linkedBuffer).ReadString", "(*linkedBuffer).read",
+		"(*linkedBuffer).readNextSlice", "(*linkedBuffer).Len", "(*linkedBuffer).appendBufferSlice", "(*linkedBuffer).cleanPinnedList", "(*linkedBuffer).ReleasePreviousRead",
+		"(*bufferSlice).append", "(*bufferSlice).reserve", "(*bufferSlice).read", "(*bufferSlice).peek", "(*bufferSlice).skip", "(*bufferSlice).size", "(*bufferSlice).remain",
+		"(*sliceList).pushBack", "(*sliceList).popFront", "(*sliceList).front", "(*sliceList).back":
+		which = "buf"
 	default:
 		return false, ""
 	}
@@ -397,6 +586,10 @@ func oracleReplay(e *Engine, o *Obligation, dir string) (bool, string) {
 	if which == "pool" {
 		src = oraclePoolTest
 		runName, what = "^TestVerifOraclePool$", "push/pop on concrete pool states (bounded search: capacities 1..5, head/tail around the wrap points)"
+	}
+	if which == "buf" {
+		src = oracleBufTest
+		runName, what = "^TestVerifOracleBuf$", "byte pipe (bounded search: 60 seeded random sequences of WriteBytes/Reserve/WriteByte followed by ReadBytes/Peek/Discard/ReadByte/ReadString/read of random sizes over 16/64/256-byte slices, compared with a reference byte queue; zero-copy results re-checked until ReleasePreviousRead)"
 	}
 	if which == "list" {
 		src = oracleListTest
